@@ -11,6 +11,14 @@ TRANS = "patronus/src/expr/transform.rs"
 SIMP = "patronus/src/expr/simplify.rs"
 
 
+SIMPLIFIER_INV = """
+impl<T: ExprMap<Option<ExprRef>>> Simplifier<T> {
+    /// what holds of a Simplifier between calls
+    pub open spec fn inv(&self, ctx: &Context) -> bool { cache_ok(ctx, &self.cache) && closed(&self.cache) }
+}
+"""
+
+
 def rd(rel):
     return open(os.path.join(BASE, rel), encoding="utf-8").read()
 
@@ -20,9 +28,16 @@ def build(ub, algebra_text):
     maps = rd("prelude/maps.rs").split("//@@EXTRACTED-ITEMS@@")[1].split("//@@MAPS-CONTAINERS@@")[0]
     ub.out("// @@FILE prelude/maps.rs (ExprMap interface, chains)\n" + maps)
     ub.out("// @@FILE prelude/driver.rs\n" + rd("prelude/driver.rs"))
+    ub.emit_raw("lemmas/seqs.rs")
     ub.emit_raw("lemmas/driver.rs")
     ub.emit_fn(META, "get_fixed_point", "verify", spec_key="get_fixed_point#partial", cfg={"receivers": {"m": "map"}, "no_canary": True})
     ub.emit_item(TRANS, "enum", "ExprTransformMode", DERIVE_COPY)
     ub.emit_fn(TRANS, "update_expr_children", "stub")
     ub.emit_fn(TRANS, "do_transform_expr", "verify", cfg={"receivers": {"ctx": "node", "transformed": "map"}, "for_each_child": True})
+    ub.emit_fn(SIMP, "simplify", "stub")
+    ub.emit_item(SIMP, "struct", "Simplifier", "", replace=[["cache:", "pub cache:"]])
+    ub.out(SIMPLIFIER_INV)
+    ub.emit_fn(SIMP, "new", "verify", impl="impl<T: ExprMap<Option<ExprRef>>> Simplifier<T>", spec_key="Simplifier::new", cfg={"receivers": {}, "no_canary": True})
+    ub.emit_fn(SIMP, "simplify", "verify", impl="impl<T: ExprMap<Option<ExprRef>>> Simplifier<T>", spec_key="Simplifier::simplify", cfg={"receivers": {}})
+    ub.emit_fn(SIMP, "simplify_single_expression", "verify", cfg={"receivers": {}})
     ub.out("} // verus!\nfn main() {}\n")
